@@ -532,8 +532,10 @@ def run_plan(rng, out, vendor):
     except Exception as e:
         if exc_origin(e) != "repo":
             raise
-        out["hist"][f"plan-unsupported:{vendor}:{type(e).__name__}"] = out["hist"].get(f"plan-unsupported:{vendor}:{type(e).__name__}", 0) + 1
-        out["extra"].setdefault("plan_exceptions", []).append(f"{vendor}: {type(e).__name__}: {str(e)[:120]}")
+        # (the generator stays inside what the three vendors support - see the ice40 restriction above - so a
+        # preparation that raises is a failure to constrain the requested ports, not an unsupported request)
+        out["violations"].append({"mechanism": f"plan-preparation-raises:{type(e).__name__}",
+                                  "detail": dict(cfg, exception=repr(e)[:300])})
         return
     out["evaluations"] += 1
     out["extra"]["plans"] += 1
